@@ -165,6 +165,8 @@ impl RollState {
 
     fn age_rotation_necessary(age: Age, created_at: &DateTime<Local>) -> bool {
         let now = Local::now();
+        #[cfg(flexi_logger_verif)]
+        let now = crate::verif_hooks::now_or(now);
         match age {
             Age::Day => {
                 created_at.year() != now.year()
@@ -428,6 +430,10 @@ impl State {
         } else {
             None
         };
+        #[cfg(flexi_logger_verif)]
+        if o_cleanup_thread_handle.is_some() {
+            crate::verif_hooks::sync_op(crate::verif_hooks::Op::Spawned("flw_cleanup"));
+        }
         Ok(Inner::Active(
             Some(RotationState {
                 naming_state,
@@ -446,6 +452,8 @@ impl State {
 
     pub fn flush(&mut self) -> std::io::Result<()> {
         if let Inner::Active(_, ref mut file, _) = self.inner {
+            #[cfg(flexi_logger_verif)]
+            crate::verif_hooks::fs_point("flush", Path::new(""))?;
             file.flush()
         } else {
             Ok(())
@@ -481,6 +489,10 @@ impl State {
                             current_infix.clone()
                         } else {
                             *ts = Local::now();
+                            #[cfg(flexi_logger_verif)]
+                            {
+                                *ts = crate::verif_hooks::now_or(*ts);
+                            }
                             self.config.file_spec.collision_free_infix_for_rotated_file(
                                 &infix_from_timestamp(ts, self.config.use_utc, fmt),
                             )
@@ -528,6 +540,8 @@ impl State {
             });
 
         if let Inner::Active(ref mut o_rotation_state, ref mut log_file, ref _path) = self.inner {
+            #[cfg(flexi_logger_verif)]
+            crate::verif_hooks::fs_point("write", _path)?;
             log_file.write_all(buf)?;
 
             if let Some(ref mut rotation_state) = o_rotation_state {
@@ -539,6 +553,8 @@ impl State {
 
     pub fn reopen_outputfile(&mut self) -> Result<(), std::io::Error> {
         if let Inner::Active(_, ref mut file, ref p_path) = self.inner {
+            #[cfg(flexi_logger_verif)]
+            crate::verif_hooks::fs_point("reopen", p_path)?;
             match OpenOptions::new().create(true).append(true).open(p_path) {
                 Ok(f) => {
                     // proved to work on standard windows, linux, mac
@@ -657,6 +673,8 @@ fn open_log_file(
         self::platform::create_symlink_if_possible(link, &path);
     }
 
+    #[cfg(flexi_logger_verif)]
+    crate::verif_hooks::fs_point("open", &path)?;
     let logfile = OpenOptions::new()
         .write(true)
         .create(true)
@@ -673,6 +691,10 @@ fn open_log_file(
 }
 
 fn get_creation_timestamp(path: &Path) -> DateTime<Local> {
+    #[cfg(flexi_logger_verif)]
+    if let Some(t) = crate::verif_hooks::created(path) {
+        return t;
+    }
     // On windows, we know that try_get_creation_date() returns a result, but it is wrong.
     if cfg!(target_os = "windows") {
         get_current_timestamp()
@@ -693,6 +715,10 @@ fn try_get_modification_timestamp(path: &Path) -> Result<DateTime<Local>, FlexiL
     Ok(d.into())
 }
 fn get_current_timestamp() -> DateTime<Local> {
+    #[cfg(flexi_logger_verif)]
+    if let Some(t) = crate::verif_hooks::now() {
+        return t;
+    }
     Local::now()
 }
 
@@ -709,9 +735,19 @@ pub(super) fn start_async_fs_writer(
             std::thread::Builder::new()
                 .name(ASYNC_WRITER.to_string())
                 .spawn(move || loop {
+                    #[cfg(flexi_logger_verif)]
+                    crate::verif_hooks::sync_op(crate::verif_hooks::Op::Recv(
+                        "flw_chan",
+                        crate::verif_hooks::id_of(&am_state),
+                    ));
                     match receiver.recv() {
                         Err(_) => break,
                         Ok(mut message) => {
+                            #[cfg(flexi_logger_verif)]
+                            let _vh = crate::verif_hooks::LockScope::new(
+                                "flw_state",
+                                crate::verif_hooks::id_of(&am_state),
+                            );
                             let mut state = am_state.lock().unwrap(/* ok */);
                             match message.as_ref() {
                                 ASYNC_FLUSH => {
@@ -731,6 +767,10 @@ pub(super) fn start_async_fs_writer(
                             }
                             if message.capacity() <= message_capa {
                                 message.clear();
+                                #[cfg(flexi_logger_verif)]
+                                crate::verif_hooks::sync_op(crate::verif_hooks::Op::Point(
+                                    "flw_pool_push",
+                                ));
                                 a_pool.push(message).ok();
                             }
                         }
@@ -748,7 +788,14 @@ pub(super) fn start_sync_flusher(am_state: Arc<Mutex<State>>, flush_interval: st
     builder.spawn(move || {
         let (_tx, rx) = std::sync::mpsc::channel::<()>();
             loop {
+                #[cfg(flexi_logger_verif)]
+                crate::verif_hooks::sync_op(crate::verif_hooks::Op::Tick("flw_flusher"));
                 rx.recv_timeout(flush_interval).ok();
+                #[cfg(flexi_logger_verif)]
+                let _vh = crate::verif_hooks::LockScope::new(
+                    "flw_state",
+                    crate::verif_hooks::id_of(&am_state),
+                );
                 (*am_state).lock().map_or_else(
                     |_e| (),
                     |mut state| {
@@ -766,11 +813,15 @@ pub(crate) fn start_async_fs_flusher(
     flush_interval: std::time::Duration,
 ) {
     let builder = std::thread::Builder::new().name(ASYNC_FLUSHER.to_string());
+    #[cfg(flexi_logger_verif)]
+    let vh_chan = crate::verif_hooks::spawn_ctx();
     #[cfg(not(feature = "dont_minimize_extra_stacks"))]
     let builder = builder.stack_size(1024);
     builder.spawn(move || {
             let (_tx, rx) = std::sync::mpsc::channel::<()>();
             loop {
+                #[cfg(flexi_logger_verif)]
+                crate::verif_hooks::sync_op(crate::verif_hooks::Op::Tick("flw_async_flusher"));
                 if let Err(std::sync::mpsc::RecvTimeoutError::Disconnected) =
                     rx.recv_timeout(flush_interval)
                 {
@@ -778,6 +829,8 @@ pub(crate) fn start_async_fs_flusher(
                     break;
                 }
 
+                #[cfg(flexi_logger_verif)]
+                crate::verif_hooks::sync_op(crate::verif_hooks::Op::Send("flw_chan", vh_chan));
                 async_writer.send(ASYNC_FLUSH.to_vec()).ok();
             }
         })
@@ -797,12 +850,16 @@ mod platform {
     fn unix_create_symlink(link: &Path, logfile: &Path) {
         if std::fs::symlink_metadata(link).is_ok() {
             // remove old symlink before creating a new one
+            #[cfg(flexi_logger_verif)]
+            let _ = crate::verif_hooks::fs_point("symlink_remove", link);
             if let Err(e) = std::fs::remove_file(link) {
                 eprint_err(ErrorCode::Symlink, "cannot delete symlink to log file", &e);
             }
         }
 
         // create new symlink
+        #[cfg(flexi_logger_verif)]
+        let _ = crate::verif_hooks::fs_point("symlink_create", link);
         if let Err(e) = std::os::unix::fs::symlink(logfile, link) {
             eprint_err(ErrorCode::Symlink, "cannot create symlink to logfile", &e);
         }
